@@ -47,11 +47,11 @@ Section Classes.
     intros Hw Hs Hv E. apply mk_bad; [exact Hw|exact Hs|]. apply clauses_then; [exact W|]. exists 1%nat. intros [|f] Hf; [lia|].
     apply controllers_version_err; [exact Hw|exact Hv|now apply parse_version_bad_operator].
   Qed.
-  Lemma bad_unterminated_version w op rest : all_ws w -> sep_ok w -> p_ver (result name q cl) = None ->
-    In op ops -> opnext rest = true -> forallb numc rest = true ->
-    bad_alt (name ++ qual_text q ++ clauses_text cl ++ w ++ ch 40 :: op ++ rest).
+  Lemma bad_unterminated_version w op rest x : all_ws w -> sep_ok w -> p_ver (result name q cl) = None ->
+    In op ops -> opnext (rest ++ x) = true -> forallb numc rest = true -> bad_in_number (peek x) = true ->
+    bad_alt (name ++ qual_text q ++ clauses_text cl ++ w ++ ch 40 :: op ++ rest ++ x).
   Proof.
-    intros Hw Hs Hv Ho Hn Hr. apply mk_bad; [exact Hw|exact Hs|]. apply clauses_then; [exact W|]. exists 1%nat. intros [|f] Hf; [lia|].
+    intros Hw Hs Hv Ho Hn Hr B. apply mk_bad; [exact Hw|exact Hs|]. apply clauses_then; [exact W|]. exists 1%nat. intros [|f] Hf; [lia|].
     apply controllers_version_err; [exact Hw|exact Hv|now apply parse_version_open].
   Qed.
 
@@ -77,20 +77,25 @@ Section Classes.
     - exact Nws.
     - exact Hmix.
   Qed.
-  Lemma bad_unterminated_bracket nt items w w0 tail : all_ws w -> sep_ok w -> all_ws w0 ->
-    Forall (wf_archent nt) (map fst items) -> seps1 items -> forallb archc tail = true ->
-    bad_alt (name ++ qual_text q ++ clauses_text cl ++ w ++ ch 91 :: w0 ++ items_text nt items ++ tail).
+  Lemma bad_unterminated_bracket nt items w w0 tail x : all_ws w -> sep_ok w -> all_ws w0 ->
+    Forall (wf_archent nt) (map fst items) -> seps1 items -> forallb archc tail = true -> bad_in_arch (peek x) = true ->
+    bad_alt (name ++ qual_text q ++ clauses_text cl ++ w ++ ch 91 :: w0 ++ items_text nt items ++ tail ++ x).
   Proof.
-    intros Hw Hs Hw0 Wf Sp Ht. apply bad_archs; try assumption.
-    apply (archs_then nt items [] tail Err Wf Sp). cbn [app].
+    intros Hw Hs Hw0 Wf Sp Ht B. apply bad_archs; try assumption.
+    apply (archs_then nt items [] (tail ++ x) Err Wf Sp). cbn [app].
     exists 1%nat. intros [|f] Hf; [lia|]. cbn [archs_loop].
-    destruct tail as [|c r]; [reflexivity|].
-    assert (Hc0 : archc c = true) by (cbn in Ht; now apply andb_true_iff in Ht as [? _]).
-    unfold archc in Hc0. apply negb_true_iff in Hc0. apply orb_false_iff in Hc0 as [Hc1 Cws]. apply orb_false_iff in Hc1 as [Hc1 C93].
-    apply orb_false_iff in Hc1 as [C0 C33].
+    destruct (tail ++ x) as [|c r] eqn:ET; [reflexivity|].
+    (* the first byte behind the tokens: of a name, or the byte that ends the clause with an error *)
+    assert (Hc0 : is_ws c = false /\ eqc c 93 = false /\ eqc c 33 = false).
+    { destruct tail as [|c1 r1].
+      - cbn [app] in ET. subst x. cbn [peek] in B. now apply bad_arch_facts.
+      - cbn [app] in ET. inversion ET; subst c1 r. cbn in Ht. apply andb_true_iff in Ht as [Hc0 _].
+        unfold archc in Hc0. apply negb_true_iff in Hc0. apply orb_false_iff in Hc0 as [Hc1 Cws]. apply orb_false_iff in Hc1 as [Hc1 C93].
+        apply orb_false_iff in Hc1 as [_ C33]. auto. }
+    destruct Hc0 as (Cws&C93&C33).
     assert (HO : headok (c :: r)) by (unfold headok; cbn; exact Cws).
-    rewrite (eat_ws_id _ HO). rewrite C0, C93. unfold parse_one_arch. rewrite (eat_ws_id _ HO). cbn [peek]. rewrite C33.
-    rewrite (reject_open_bracket (c :: r) [] Ht).
+    rewrite (eat_ws_id _ HO). destruct (eqc c 0); [reflexivity|]. rewrite C93. unfold parse_one_arch. rewrite (eat_ws_id _ HO). cbn [peek]. rewrite C33.
+    rewrite <- ET. rewrite (reject_open_bracket tail [] x Ht B).
     destruct (a_list _); [reflexivity|]. destruct (Bool.eqb _ false); reflexivity.
   Qed.
 End Classes.
@@ -129,21 +134,21 @@ Theorem C04_prefix_alternatives_ok :
 Proof. split; [exact alt_freeR|exact alt_substR]. Qed.
 
 (* the unterminated substvar, at any position: "${name" up to the end of the input *)
-Lemma bad_rel_open_substvar nm : forallb subc nm = true -> bad_rel (ch 36 :: ch 123 :: nm).
+Lemma bad_rel_open_substvar nm x : forallb subc nm = true -> bad_in_substvar (peek x) = true -> bad_rel (ch 36 :: ch 123 :: nm ++ x).
 Proof.
-  intros Hn. split; [repeat split|].
+  intros Hn B. split; [repeat split|].
   intros rel d. exists 2%nat. intros [|[|f]] Hf; try lia.
   rewrite relation_loop_S. cbn [peek]. change (eqc (ch 36) 0 || eqc (ch 36) 44) with false. change (eqc (ch 36) 124) with false. cbv iota.
-  unfold parse_possibility. assert (E0 : eat_ws (ch 36 :: ch 123 :: nm) = ch 36 :: ch 123 :: nm) by reflexivity.
+  unfold parse_possibility. assert (E0 : eat_ws (ch 36 :: ch 123 :: nm ++ x) = ch 36 :: ch 123 :: nm ++ x) by reflexivity.
   rewrite E0. cbn [peek]. change (eqc (ch 36) 36) with true. cbv iota.
-  unfold parse_substvar. rewrite E0. cbn [adv tl]. now rewrite (reject_open_substvar nm [] Hn).
+  unfold parse_substvar. rewrite E0. cbn [adv tl]. now rewrite (reject_open_substvar nm [] x Hn B).
 Qed.
-Theorem C04_reject_open_substvar_anywhere nm : forallb subc nm = true ->
-  (forall w0, all_ws w0 -> parse (w0 ++ ch 36 :: ch 123 :: nm) = Err) /\
+Theorem C04_reject_open_substvar_anywhere nm x : forallb subc nm = true -> bad_in_substvar (peek x) = true ->
+  (forall w0, all_ws w0 -> parse (w0 ++ ch 36 :: ch 123 :: nm ++ x) = Err) /\
   (forall w0 r0 more w, all_ws w0 -> lrelR_ok r0 -> Forall (fun wr => all_ws (fst wr) /\ lrelR_ok (snd wr)) more -> all_ws w ->
-     parse (w0 ++ lrel2_text r0 ++ tail2_text more ++ ch 44 :: w ++ ch 36 :: ch 123 :: nm) = Err).
+     parse (w0 ++ lrel2_text r0 ++ tail2_text more ++ ch 44 :: w ++ ch 36 :: ch 123 :: nm ++ x) = Err).
 Proof.
-  intros Hn. split.
+  intros Hn B. split.
   - intros w0 Hw0. apply parse_err_first_relation; [exact Hw0|now apply bad_rel_open_substvar].
   - intros w0 r0 more w Hw0 W0 Wm Hw. apply parse_err_later_relation; try assumption. now apply bad_rel_open_substvar.
 Qed.
